@@ -34,6 +34,7 @@ InitObs(P) ==
     dreg  |-> EmptyFn,      \* C12: (function, key) -> the in-flight deduplicated task, as the property defines it
     aband |-> {},           \* tasks given up because their computation was ended from outside (runaway-recursion reset, raising flush())
     abandfl |-> {},         \* ... those of them given up because BatchBase.flush() itself raised
+    assigned |-> {},        \* <<task, variable>>: the task assigned to the variable inside its override; its own reads are not judged until the override is next resumed
     fl    |-> <<>>,         \* compositions (sets of items) of the scheduler's flushes so far
     ovf   |-> FALSE,        \* a synchronous call has just failed with the runaway-recursion RuntimeError (scheduler reset)
     nflush |-> 0,           \* scheduler flushes of the current outermost call
@@ -87,6 +88,10 @@ CtxRunClauses(S, u) ==
 
 (* the innermost enclosing override of variable x seen from running task u, for tree-shaped programs:
    walk from u up through its unique parents *)
+RECURSIVE UniqueChain(_, _, _)     \* every task from u up to a root is awaited by exactly one task
+UniqueChain(S, u, n) ==
+  LET ps == Parents(S, u) IN
+  IF n = 0 \/ ps = {} THEN TRUE ELSE Cardinality(ps) = 1 /\ UniqueChain(S, CHOOSE p \in ps : TRUE, n - 1)
 RECURSIVE AncChain(_, _, _)
 AncChain(S, u, n) ==          \* <<u, parent(u), ...>> ; stops at a root or after n steps
   LET ps == Parents(S, u) IN
@@ -314,13 +319,15 @@ Step(S, e) ==
         IF e.a \notin DOMAIN S.ctx THEN [S |-> S, bad |-> {"H.unknown_ctx"}] ELSE
         LET C == S.ctx[e.a] IN
         [S |-> [S EXCEPT !.ctx[e.a].st = IF C.st \in {"exiting", "exiting_off"} THEN "closed" ELSE "off",
-                         !.cstk = SeqWithout(@, e.a)],
+                         !.cstk = SeqWithout(@, e.a),
+                         !.assigned = {z \in @ : z[3] # e.a}],
          bad |-> IfBad(NoFaultyCtx(P) => C.st \in {"on", "exiting"}, "C06.alt.pause") \cup
                  IfBad(NoFaultyCtx(P) => (S.cstk # <<>> /\ Last(S.cstk) = e.a), "C07.lifo")]
 
     [] e.e = "Read" ->
         [S |-> S,
-         bad |-> (IF TreeShaped(P) /\ NoFaultyCtx(P) /\ ~HasCtxType(P, "nonasync")
+         bad |-> (IF UniqueChain(S, e.t, Cardinality(Tasks(S))) /\ NoFaultyCtx(P) /\ ~HasCtxType(P, "nonasync")
+                     /\ \A z \in S.assigned : z[2] # e.a \/ (z[1] # e.t /\ z[1] \notin Range(AncChain(S, e.t, Cardinality(Tasks(S)))))
                   THEN IfBad(e.v = VC(ExpectedRead(S, e.t, e.a)), "C07.read") ELSE {}) \cup
                  CtxRunClauses(S, e.t)]
 
@@ -363,6 +370,14 @@ Step(S, e) ==
                           IfBad(AcceptsMaximal(P, root, S.fl) => Accepts(P, root, S.fl), "C05.rounds")
                      ELSE {}) \cup
                     IfBad(NoFaultyCtx(P) => S.cstk = <<>>, "C06.alt.end")]
+
+    [] e.e = "Set" ->
+        \* the assignment lives in the scope of the innermost override of that variable the task has open: it is in force
+        \* (for the task and for the tasks it awaits) until that context is next paused, which puts the outer value back
+        LET mine == {c \in DOMAIN S.ctx : S.ctx[c].owner = e.t /\ S.ctx[c].st = "on" /\ S.ctx[c].ty = (IF e.a < 100 THEN "override" ELSE "attr")
+                                          /\ P.ctxs[c].var = (IF e.a < 100 THEN e.a ELSE e.a - 100)}
+            c0 == IF mine = {} THEN 0 ELSE CHOOSE c \in mine : \A d \in mine : S.ctx[d].ord <= S.ctx[c].ord
+        IN [S |-> [S EXCEPT !.assigned = @ \cup {<<e.t, e.a, c0>>}], bad |-> {}]
 
     [] e.e = "IVal" ->          \* item.value() called from a body returned: the outcome of that very item
         [S |-> S,
